@@ -406,3 +406,25 @@ def reorder_keeps_records(kind, n):
         ob(label, f())
     for i, f in enumerate(sorted_checks):
         ob('coverage-sorted-by-new-gid:%d' % i, f())
+
+
+@kernel('C17', funcs=['ttLib/scaleUpem.py:_cff_scale', 'ttLib/scaleUpem.py:ScalerVisitor.scale'],
+        bounds='charstring / Private-dict operand lists as the CFF scaler sees them: plain numbers, mask bytes, and CFF2 blend lists [defaults..., deltas..., numBlends] '
+               '(nested one level), every number symbolic: after _cff_scale every number (also inside blend lists) is scaled once within 1/2, the trailing '
+               'numBlends of each blend list and the mask bytes are unchanged',
+        quick=[dict(new=2000), dict(new=500)], thorough=[dict(new=n) for n in (2000, 500, 2048, 1234)])
+def cff_operands_scaled(new):
+    from fractions import Fraction as Fr
+    k = Fr(new, 1000)
+    vis = SU.ScalerVisitor(new / 1000)
+    plain = [I('p%d' % i) for i in range(3)]
+    blend = [I('b%d' % i) for i in range(4)] + [2]
+    blend0 = list(blend)
+    args = [plain[0], list(blend), plain[1], b'\xc0', plain[2]]
+    inner = args[1]
+    SU._cff_scale(vis, args)
+    def scaled(new_v, old):
+        return conj([is_int(new_v), le(new_v - old * k, Fr(1, 2)), le(old * k - new_v, Fr(1, 2))])
+    ob('plain-operands-scaled', conj([scaled(args[0], plain[0]), scaled(args[2], plain[1]), scaled(args[4], plain[2])]))
+    ob('blend-operands-scaled', args[1] is inner and conj([scaled(a, b) for a, b in zip(args[1][:-1], blend0[:-1])]))
+    ob('numBlends-and-mask-kept', args[1][-1] == 2 and args[3] == b'\xc0' and len(args) == 5)
